@@ -96,6 +96,10 @@ def cases(tier):
                     nn = 4 * n
                     cut = dec(Decimal(st) * (nn - 1))
                 out.append(dict(kind='e2e', target=tgt, step=st, n=nn, cutoff=cut, combo=combo))
+                # documented synonyms of the target name
+                for syn, canon in (('DL_POLY', 'DLPOLY'), ('lammps_eam_alloy', 'setfl'), ('LAMMPS_eam_alloy', 'setfl')):
+                    if canon == tgt:
+                        out.append(dict(kind='e2e', target=tgt, spelling=syn, step=st, n=nn, cutoff=cut, combo=combo))
                 if (st, n) in (('0.1', 4), ('0.05', 13), ('0.2', 16)):
                     # the same through the potable command line into an OUTPUT_FILE that already holds a longer, older tabulation
                     out.append(dict(kind='e2e', target=tgt, step=st, n=nn, cutoff=cut, combo=combo, via='potable'))
@@ -283,7 +287,7 @@ def run_e2e(case):
         if combo == 'nr+dr':
             return '%s : %d\n%s : %s\n' % (NR, n, DR, st)
         return '%s : %s\n%s : %d\n' % (CUT, cut, NR, n)
-    tab = '[Tabulation]\ntarget : %s\n%s' % (tgt, opts('nr', 'dr', 'cutoff'))
+    tab = '[Tabulation]\ntarget : %s\n%s' % (case.get('spelling', tgt), opts('nr', 'dr', 'cutoff'))
     if eam:
         tab += opts('nrho', 'drho', 'cutoff_rho')
     fs = tgt.endswith('_fs')
